@@ -182,4 +182,22 @@ def handleCbor (op : String) (args : List String) : Option String :=
     | _ => none
   | _, _ => none
 
+/-- `cbor.dec.grow kind (script hex)+`: ONE decoder over a reader that receives the phases' bytes one after the other; each phase runs
+    its script up to the first error and what it left unread is discarded. The model has no decoder object: every phase is
+    `cbor.dec.seq` on that phase's bytes alone (whatever an earlier call read or failed on leaves no trace). -/
+def handleCborGrow (op : String) (args : List String) : Option String :=
+  match op, args with
+  | "cbor.dec.grow", _ :: rest =>
+    let rec phases (fuel : Nat) (l : List String) (acc : List String) : Option String :=
+      match fuel, l with
+      | _, [] => if acc.isEmpty then none else some ("|".intercalate acc)
+      | fuel + 1, script :: h :: more => do
+        let r ← handleCbor "cbor.dec.seq" ["bytes", script, h]
+        phases fuel more (acc ++ [r])
+      | _, _ => none
+    phases rest.length rest []
+  -- real-code-only round trip of a long string (encoder, then decoder): by `C12.roundtrip_*` the answer is "the same value"
+  | "cbor.rt.big", [k, n, _] => if (k == "b" || k == "t") && n.toNat?.isSome then some "same" else none
+  | _, _ => none
+
 end WebPkg.Driver
